@@ -52,9 +52,9 @@ def sampler_seeds(ctx: Context) -> dict[tuple[str, str], set[str]]:
 
 
 def run(ctx: Context) -> None:
-    r1_no_mutation(ctx)
-    r2_surrogate(ctx)
-    r3_best_batch(ctx)
+    ctx.rule(r1_no_mutation)
+    ctx.rule(r2_surrogate)
+    ctx.rule(r3_best_batch)
 
 
 def r1_no_mutation(ctx: Context) -> None:
